@@ -406,30 +406,37 @@ func (a Int) M__imul__(other Object) (Object, error) {
 	return a.M__mul__(other)
 }
 
-func (a Int) M__truediv__(other Object) (Object, error) {
-	b, err := MakeFloat(other)
-	if err != nil {
-		return nil, err
-	}
-	fa := Float(a)
-	fb := b.(Float)
-	if fb == 0 {
+// True division of two ints of any size: the exact quotient rounded
+// to the nearest float
+func intTrueDiv(a, b *big.Int) (Object, error) {
+	if b.Sign() == 0 {
 		return nil, divisionByZero
 	}
-	return Float(fa / fb), nil
+	f, _ := new(big.Rat).SetFrac(a, b).Float64()
+	if math.IsInf(f, 0) {
+		return nil, ExceptionNewf(OverflowError, "integer division result too large for a float")
+	}
+	return Float(f), nil
+}
+
+func (a Int) M__truediv__(other Object) (Object, error) {
+	if b, ok := ConvertToBigInt(other); ok {
+		return intTrueDiv(big.NewInt(int64(a)), (*big.Int)(b))
+	}
+	if b, ok := other.(Float); ok {
+		return Float(a).M__truediv__(b)
+	}
+	return NotImplemented, nil
 }
 
 func (a Int) M__rtruediv__(other Object) (Object, error) {
-	b, err := MakeFloat(other)
-	if err != nil {
-		return nil, err
+	if b, ok := ConvertToBigInt(other); ok {
+		return intTrueDiv((*big.Int)(b), big.NewInt(int64(a)))
 	}
-	fa := Float(a)
-	fb := b.(Float)
-	if fa == 0 {
-		return nil, divisionByZero
+	if b, ok := other.(Float); ok {
+		return b.M__truediv__(Float(a))
 	}
-	return Float(fb / fa), nil
+	return NotImplemented, nil
 }
 
 func (a Int) M__itruediv__(other Object) (Object, error) {
